@@ -440,3 +440,35 @@ func Permute(v V, choices []byte) V {
 	}
 	return rec(v)
 }
+
+// IntegralFloat reports a float whose value is integral and below 1e21 in magnitude (the
+// class of the known DAG-JSON finding).
+func IntegralFloat(x V) bool {
+	return x.K == Float && x.F == math.Trunc(x.F) && math.Abs(x.F) < 1e21
+}
+
+// ShiftIntegralFloats returns v with every such float moved off the integers.
+func ShiftIntegralFloats(v V) (V, bool) {
+	if !v.Has(IntegralFloat) {
+		return v, false
+	}
+	c := v.Clone()
+	var fix func(x *V)
+	fix = func(x *V) {
+		if IntegralFloat(*x) {
+			if math.Abs(x.F) < 1e15 {
+				x.F += 0.5
+			} else {
+				x.F *= 1e10 // beyond 1e21 the encoder uses exponent notation, which keeps the kind
+			}
+		}
+		for i := range x.Items {
+			fix(&x.Items[i])
+		}
+		for i := range x.Ents {
+			fix(&x.Ents[i].V)
+		}
+	}
+	fix(&c)
+	return c, true
+}
